@@ -658,3 +658,88 @@ func (s *runState) GoodResetToNil() {
 }
 
 func bytesEqual(a, b []byte) bool { return string(a) == string(b) }
+
+// FLUSH-SITES-AGREE
+
+// Bitmap stands in for the postings bitmap.
+type Bitmap struct{ bits []uint64 }
+
+func (b *Bitmap) Or(o *Bitmap) {
+	for i := range o.bits {
+		if i < len(b.bits) {
+			b.bits[i] |= o.bits[i]
+		}
+	}
+}
+
+func (b *Bitmap) Clear() { b.bits = b.bits[:0] }
+
+func flushTermCtl(w io.Writer, term *Bitmap) error {
+	var buf [8]byte
+	binary.BigEndian.PutUint64(buf[:], uint64(len(term.bits)))
+	_, err := w.Write(buf[:])
+	term.Clear()
+	return err
+}
+
+func BadFlushSitesLastTermUntracked(w io.Writer, terms [][]uint64, seen *Bitmap) error {
+	cur := &Bitmap{}
+	for i, t := range terms {
+		if i > 0 {
+			seen.Or(cur)
+			if err := flushTermCtl(w, cur); err != nil {
+				return err
+			}
+		}
+		cur.bits = append(cur.bits, t...)
+	}
+	return flushTermCtl(w, cur) // the last term never reaches seen
+}
+
+func GoodFlushSitesAllTracked(w io.Writer, terms [][]uint64, seen *Bitmap) error {
+	cur := &Bitmap{}
+	for i, t := range terms {
+		if i > 0 {
+			seen.Or(cur)
+			if err := flushTermCtl(w, cur); err != nil {
+				return err
+			}
+		}
+		cur.bits = append(cur.bits, t...)
+	}
+	seen.Or(cur)
+	return flushTermCtl(w, cur)
+}
+
+// SEEN-UNCONDITIONAL
+
+type ctlField interface {
+	Name() int
+	Terms() int
+}
+
+type ctlDoc interface{ EachField(func(ctlField)) }
+
+type ctlBuilder struct{ FieldDocs map[int]uint64 }
+
+func (s *ctlBuilder) BadSeenOnlyWithTerms(d ctlDoc) {
+	seen := map[int]struct{}{}
+	d.EachField(func(f ctlField) {
+		if f.Terms() > 0 {
+			seen[f.Name()] = struct{}{}
+		}
+	})
+	for k := range seen {
+		s.FieldDocs[k]++
+	}
+}
+
+func (s *ctlBuilder) GoodSeenAlways(d ctlDoc) {
+	seen := map[int]struct{}{}
+	d.EachField(func(f ctlField) {
+		seen[f.Name()] = struct{}{}
+	})
+	for k := range seen {
+		s.FieldDocs[k]++
+	}
+}
